@@ -6,7 +6,7 @@ Line protocol of the C03 driver (one reply line per request line).
 
   `<kind> <op> <op> …`   run the history on `Gen.CacheTable.table` from a freshly constructed model and print,
                           after each op, the observable cache state (and the answer description of calls)
-  `X <kind> <depth> full|ops`  enumerate ALL histories up to `depth` on the model (24-symbol alphabet with twelve
+  `X <kind> <depth> full|ops`  enumerate ALL histories up to `depth` on the model (26-symbol alphabet with fourteen
                           settings cells, or the 9 operation kinds) and check the executable invariant at every
                           state and `answer is current ∧ = answer of the rebuilt model` at every call
 
@@ -25,7 +25,7 @@ def parseKind : String → Option Kind
   | "svgp" => some .svgp | "usvgp" => some .usvgp | _ => none
 
 def cells : List Cell := [.default, .fastPredVar, .eagerKernels, .cg, .noDetach, .skipVar, .degradedRoot, .degradedCG, .lazyJoint, .traceMode,
-  .fastPredSamples, .fastPredBoth]
+  .fastPredSamples, .fastPredBoth, .nanPolicyMask, .nanPolicyFill]
 
 def parseOp : String → Option Op
   | "P0" => some (.predict .default) | "P1" => some (.predict .fastPredVar) | "P2" => some (.predict .eagerKernels)
@@ -46,7 +46,7 @@ def slotName (s : Nat) : String := Gen.CacheTable.slotNames.getD s s!"slot{s}"
 def className (c : Nat) : String := Gen.CacheTable.classNames.getD c s!"class{c}"
 
 def live (s : State) (p : Nat → Bool) : List Nat :=
-  (List.range 16).filter fun sl => p sl && (s.store sl).isSome
+  (List.range 18).filter fun sl => p sl && (s.store sl).isSome
 
 def showKeys (s : State) : String :=
   let ps := if s.kind.isExact then
@@ -82,8 +82,8 @@ def runLine (k : Kind) (ops : List Op) : String :=
 
 /-! ### exhaustive enumeration on the model -/
 
-/-- `full = true`: 12 predict cells + R T E S D L B + F (outcome the model expects) + F raising inside deepcopy
-(24 symbols: + targets-only / inputs-only set_train_data, old-format load_state_dict); `full = false`: the 9 operation kinds with predict under default settings. -/
+/-- `full = true`: 14 predict cells + R T E S D L B + F (outcome the model expects) + F raising inside deepcopy
+(26 symbols: + targets-only / inputs-only set_train_data, old-format load_state_dict); `full = false`: the 9 operation kinds with predict under default settings. -/
 def alphabet (full : Bool) : List (State → Op) :=
   let fant : State → Op := fun s => .fantasy (if fantasyAccepts T s then .ok else .rejectedEarly)
   let base : List (State → Op) :=
@@ -105,7 +105,7 @@ def Tally.flag (t : Tally) (ok : Bool) (what : Unit → String) : Tally :=
 
 /-- same state, store re-tabulated (keeps look-ups O(1) however long the history is) -/
 def compact (s : State) : State :=
-  let arr := (Array.range 16).map s.store
+  let arr := (Array.range 18).map s.store
   { s with store := fun sl => arr.getD sl none }
 
 partial def dfs (full : Bool) (s : State) (depth : Nat) (t : Tally) : Tally :=
